@@ -15,14 +15,25 @@ import os, sys, dis, time, pickle, itertools, multiprocessing, hashlib
 from lib import common
 from lib.dsched import Sched
 
-RULE = ("all interleavings (at loads/stores of __coords/__precompute of shared objects) of 2 threads x all pairs of "
+RULE = ("yield points: loads/stores of __coords/__precompute of shared point objects, of the key's point reference, of "
+        "module-level / class-level containers, and of ANY other attribute that is found stored on a shared object (point, "
+        "VerifyingKey, SigningKey, Public_key, Private_key) while the task runs — found by a sequential profiling run of the "
+        "operations or during the exploration, which then starts again (`extra_state` in the results; none on the "
+        "unchanged tree); oracle: every result equals a sequential value, the cells hold only allowed values, and after "
+        "every distinct final state each operation run once more ALONE still returns its sequential value; "
+        "all interleavings of 2 threads x all pairs of "
         "{x, y, scale, to_affine, ==, +, double, neg, * k, mul_add, pickle, verify} x {plain point (z != 1), generator "
         "(table built lazily by the first multiplication), table already built}, on two prime-order toy curves; DFS with "
         "hashing of (cells, per-thread read history); key level: all pairs of {precompute, precompute(lazy), verify_digest, "
-        "to_string (raw, compressed), point.x, point*k, pickle, sign_digest (on the shared curve generator)} on one shared key pair (the point object swapped in by precompute becomes "
+        "to_string (raw, compressed), point.x, point*k, pickle, sign_digest (on the shared curve generator), sign_digest_deterministic with two different digests (ONE shared SigningKey)} on one shared key pair (the point object swapped in by precompute becomes "
         "a shared object when published); 3 threads with <= 2 preemptions: 12 delicate triples (quick), 160 random triples "
-        "(thorough); a schedule is distinct by "
-        "(operations, variant, choice list); every modelled pair is also replayed on the Lean model step by step")
+        "(thorough); every modelled pair is also replayed on the Lean model step by step.  Counting: `evaluations` = traces "
+        "replayed on the model; a case is DISTINCT by its canonical form (curve, initial objects, operations, choice "
+        "list = the driver line), counted with a set (`distinct_cases`); a case is TRIVIAL when every thread's steps are "
+        "contiguous in the choice list (the operations ran one after another, no thread was resumed after another one "
+        "ran); `distinct_nontrivial` = distinct cases that are not trivial.  Budgets are run counts per task (quick 400 / "
+        "600, thorough 3000 / 1500), never wall clock; the explored set is a function of (tree, tier, VERIF_SEED) — "
+        "`explored_digest` is the hash of the sorted set of replayed cases")
 ASSUMPTIONS = ["one load or store of an attribute and the construction of a tuple are atomic under the GIL (trusted base); "
                "the model cannot exhibit a torn reference",
                "dict.copy() of the instance dict (pickling) is atomic in CPython; the model reads the two cells one after "
@@ -37,6 +48,84 @@ FIELDS = {"_PointJacobi__coords": "coords", "_PointJacobi__precompute": "pre", "
 class Run:
     """the run in progress (one per process)"""
     cur = None
+    restart = False
+    profiling = False
+
+    def shared_extra(self):
+        """the key-level objects shared by the threads of a key scenario (besides the registered point objects)"""
+        out = []
+        scn = getattr(self, "scn", None)
+        for root in (getattr(scn, "vk", None), getattr(scn, "sk", None)):
+            if root is None:
+                continue
+            for o in (root, getattr(root, "pubkey", None), getattr(root, "privkey", None),
+                      getattr(root, "verifying_key", None), getattr(getattr(root, "verifying_key", None), "pubkey", None),
+                      getattr(getattr(root, "privkey", None), "public_key", None)):
+                if o is not None and not any(o is x for x in out):
+                    out.append(o)
+        return out
+
+    def label_of(self, obj):
+        """a stable name of a SHARED object ("o<k>": registered point object k, "k<j>": j-th key-level object); None for
+        everything else (thread-local objects)"""
+        if obj is None:
+            return None
+        k = self.ids.get(id(obj))
+        if k is not None and self.objs[k] is obj:
+            return "o%d" % k
+        xs = getattr(self, "_xobjs", None)
+        if xs is None:
+            xs = self._xobjs = self.shared_extra()
+        for j, o in enumerate(xs):
+            if o is obj:
+                return "k%d" % j
+        return None
+
+    def object_of(self, label):
+        return self.objs[int(label[1:])] if label[0] == "o" else self._xobjs[int(label[1:])]
+
+    def describe(self, v, depth=0):
+        """a value as a hashable, address-free description"""
+        if v is None or isinstance(v, (bool, int, str, bytes)):
+            return repr(v)
+        if isinstance(v, (tuple, list)) and depth < 3:
+            return "(" + ",".join(self.describe(x, depth + 1) for x in v) + ")"
+        lab = self.label_of(v)
+        if lab is not None:
+            return lab
+        c = getattr(v, "_PointJacobi__coords", None)
+        if c is not None:
+            return "pj%r" % (tuple(int(x) for x in c),)
+        try:
+            return "%s:%d" % (type(v).__name__, int(v))
+        except Exception:  # noqa
+            return type(v).__name__
+
+    def extra_state(self):
+        """values of the extra (non-modelled) attributes found stored on shared objects"""
+        if not DIRTY:
+            return ()
+        xs = getattr(self, "_xobjs", None)
+        if xs is None:
+            xs = self._xobjs = self.shared_extra()
+        out = []
+        for lab, o in [("o%d" % k, o) for k, o in enumerate(self.objs)] + [("k%d" % j, o) for j, o in enumerate(xs)]:
+            d = getattr(o, "__dict__", {})
+            for n in sorted(DIRTY):
+                if n in d:
+                    out.append((lab, n, self.describe(d[n])))
+        return tuple(out)
+
+
+class Prof(Run):
+    """sequential profiling run: no scheduler; the callback records which extra attributes of shared objects are stored"""
+    profiling = True
+    sched = None
+
+    def __init__(self, scn, objs):
+        self.scn, self.objs = scn, objs
+        self.ids = {id(o): k for k, o in enumerate(objs)}
+        self._xobjs = self.shared_extra()
 
 
 # ------------------------------------------------------------------------------------------------
@@ -46,6 +135,8 @@ _INSTALLED = [False]
 TOOL = 3
 
 
+DIRTY = set()            # attribute names (other than the modelled cells) found STORED on a shared object during the current task
+STORED_NAMES = set()     # attribute names that some STORE_ATTR of the four modules stores (candidates for extra object state)
 SHARED_CONTAINERS = []   # [(description, name, object)]: module-level / class-level mutable containers of the four modules
 MUTABLE = (list, dict, set, bytearray)
 
@@ -100,6 +191,16 @@ def _scan(code, shared_names):
             m[ins.offset] = ("W" if ins.opname == "STORE_ATTR" else "R", recv, FIELDS[ins.argval])
         elif ins.opname in ("LOAD_ATTR", "LOAD_GLOBAL", "LOAD_NAME", "STORE_GLOBAL", "STORE_ATTR") and ins.argval in shared_names:
             m[ins.offset] = ("G", ins.argval, None)
+        elif ins.opname == "STORE_ATTR" or (ins.opname == "LOAD_ATTR" and ins.argval in STORED_NAMES):
+            # ANY other attribute of an object held in a local (`self.x`, `other.x`) or reached by one more attribute
+            # (`self.pubkey.x`): a yield point when the object is shared and the attribute is stored during the task
+            kind = "XW" if ins.opname == "STORE_ATTR" else "XR"
+            if prev is not None and prev.opname.startswith("LOAD_FAST"):
+                recv = prev.argval[-1] if isinstance(prev.argval, tuple) else prev.argval
+                m[ins.offset] = (kind, recv, (None, ins.argval))
+            elif prev is not None and prev.opname == "LOAD_ATTR" and prev2 is not None and prev2.opname.startswith("LOAD_FAST"):
+                recv = prev2.argval[-1] if isinstance(prev2.argval, tuple) else prev2.argval
+                m[ins.offset] = (kind, recv, (prev.argval, ins.argval))
         elif ins.opname.startswith("LOAD_FAST") and ins.argval in alias:
             m[ins.offset] = ("A", ins.argval, alias[ins.argval])
         prev2 = prev
@@ -112,10 +213,40 @@ def _callback(code, offset):
     if acc is None:
         return sys.monitoring.DISABLE
     run = Run.cur
-    if run is None or run.sched is None or run.sched.me() is None:
+    if run is None:
+        return None
+    if run.sched is None or run.sched.me() is None:
+        # sequential profiling run (no scheduler): only record which extra attributes of shared objects are stored
+        if acc[0] == "XW" and getattr(run, "profiling", False):
+            via, name = acc[2]
+            obj = sys._getframe(1).f_locals.get(acc[1])
+            if via is not None:
+                obj = getattr(obj, "__dict__", {}).get(via)
+            if name not in DIRTY and run.label_of(obj) is not None:
+                DIRTY.add(name)
+                sys.monitoring.restart_events()
         return None
     kind, recv, field = acc
     if recv is None:
+        return None
+    if kind in ("XR", "XW"):
+        via, name = field
+        if kind == "XR" and name not in DIRTY:
+            return sys.monitoring.DISABLE      # re-armed (restart_events) when DIRTY grows
+        obj = sys._getframe(1).f_locals.get(recv)
+        if via is not None:
+            obj = getattr(obj, "__dict__", {}).get(via)
+        label = run.label_of(obj)
+        if label is None:
+            return None
+        if name not in DIRTY:
+            # a store to an attribute of a SHARED object that is not one of the modelled cells: from now on every load /
+            # store of that attribute on a shared object is a yield point; the task starts again with them
+            DIRTY.add(name)
+            run.restart = True
+            sys.monitoring.restart_events()
+            return None
+        run.sched.yield_point((kind, label, name))
         return None
     if kind in ("PR", "PW"):
         vk = getattr(run, "vk", None)
@@ -178,6 +309,7 @@ def install():
     save_shared()
     names = {n for _, n, _ in SHARED_CONTAINERS}
     seen = set()
+    all_codes = []
     for mod in (ecdsa.ellipticcurve, ecdsa.numbertheory, ecdsa.keys, ecdsa.ecdsa):
         fns = []
         for v in vars(mod).values():
@@ -194,9 +326,15 @@ def install():
                 if code in seen:
                     continue
                 seen.add(code)
-                _ACCESS[code] = _scan(code, names)
-                if _ACCESS[code]:
-                    mon.set_local_events(TOOL, code, mon.events.INSTRUCTION)
+                all_codes.append(code)
+    for code in all_codes:
+        for ins in dis.get_instructions(code):
+            if ins.opname == "STORE_ATTR" and ins.argval not in FIELDS and ins.argval != "point":
+                STORED_NAMES.add(ins.argval)
+    for code in all_codes:
+        _ACCESS[code] = _scan(code, names)
+        if _ACCESS[code]:
+            mon.set_local_events(TOOL, code, mon.events.INSTRUCTION)
     _INSTALLED[0] = True
 
 
@@ -336,6 +474,9 @@ def key_operations(scn):
         "k_sign": lambda o, vk: scn.sk.sign_digest(scn.dg, k=scn.k, allow_truncate=True),
         "k_sign2": lambda o, vk: scn.sk.sign_digest(b"\x09", k=7, allow_truncate=True),
         "k_compressed": lambda o, vk: vk.to_string("compressed"),
+        # two threads signing deterministically (RFC 6979) with ONE shared SigningKey, different digests
+        "k_signdet": lambda o, vk: scn.sk.sign_digest_deterministic(b"\x50", hashfunc=hashlib.sha1, allow_truncate=True),
+        "k_signdet2": lambda o, vk: scn.sk.sign_digest_deterministic(b"\xb0", hashfunc=hashlib.sha1, allow_truncate=True),
         # the five modelled key-level functions, called directly (replayed step by step on the Lean model)
         "kv": lambda o, vk: vk.pubkey.verifies(scn.h_int, scn.sig_obj),
         "kv_bad": lambda o, vk: vk.pubkey.verifies(scn.h_int + 1, scn.sig_obj),
@@ -360,7 +501,7 @@ KEY_MODEL_OPS = ["kv", "kv_bad", "ksn", "kraw", "kcomp", "kpre", "kprel"]
 
 
 KEY_OPS = ["k_precompute", "k_precompute_lazy", "k_verify", "k_to_string", "k_point_x", "k_point_mul", "k_pickle", "k_sign",
-           "k_sign2", "k_compressed"]
+           "k_sign2", "k_compressed", "k_signdet", "k_signdet2"]
 
 
 def _verify_op(toy):
@@ -524,6 +665,7 @@ class Exec(Run):
         self.objs = scn.make()
         self.ids = {id(o): k for k, o in enumerate(self.objs)}
         self.vk = getattr(scn, "vk", None)
+        self._xobjs = self.shared_extra()
         if self.vk is not None:
             kops = key_operations(scn)
             vk = self.vk
@@ -556,6 +698,12 @@ class Exec(Run):
         self.ids[id(obj)] = k
         return k
 
+    def index_of(self, obj):
+        """position of a shared object in `objs` (registration order: deterministic) — never its address: state keys must
+        not depend on where the allocator put an object, or the explored set varies from run to run"""
+        k = self.ids.get(id(obj))
+        return self.publish(obj) if k is None else k
+
     def cell(self, k, field):
         o = self.objs[k]
         return o._PointJacobi__coords if field == "coords" else o._PointJacobi__precompute
@@ -563,9 +711,12 @@ class Exec(Run):
     def note_choice(self, j):
         """thread j is about to perform its pending access: record what it reads"""
         p = self.sched.pending[j]
-        if p is not None and p[1] == "K":
+        if p is not None and p[0] in ("XR", "XW"):
+            if p[0] == "XR":
+                self.reads[j].append(("X", p[1], p[2], self.describe(getattr(self.object_of(p[1]), "__dict__", {}).get(p[2], "<absent>"))))
+        elif p is not None and p[1] == "K":
             if p[0] == "R":
-                self.reads[j].append(("K", id(self.vk.pubkey.point)))
+                self.reads[j].append(("K", self.index_of(self.vk.pubkey.point)))
         elif p is not None and p[0] == "R":
             v = self.cell(p[1], p[2])
             self.reads[j].append((p[1], p[2], tuple(v) if p[2] == "coords" else len(v)))
@@ -574,7 +725,8 @@ class Exec(Run):
 
     def key(self):
         s = self.sched
-        return (heap_of(self), shared_repr(), tuple(s.pending), tuple(s.done), tuple(tuple(r) for r in self.reads))
+        return (heap_of(self), shared_repr(), self.extra_state(), tuple(s.pending), tuple(s.done),
+                tuple(tuple(r) for r in self.reads))
 
     def runnable(self):
         return [i for i in range(len(self.fns)) if not self.sched.done[i]]
@@ -620,13 +772,36 @@ def sequential(scn, opnames):
         reset_shared()
         objs = scn.make()
         kops = key_operations(scn) if iskey else None
+        Run.cur = Prof(scn, objs)
         for i in order:
             try:
                 r, e = (kops[opnames[i]](objs, scn.vk) if iskey else ops[opnames[i]][0](objs)), None
             except Exception as ex:  # noqa
                 r, e = None, ex
+            finally:
+                pass
             acc[i].add(value_result(r, objs, e) if not (e is None and any(r is o for o in objs)) else "self")
+        Run.cur = None
     return acc
+
+
+def recheck_sequential(ex, acc):
+    """after a complete interleaving: every operation, run once more ALONE on the objects as the threads left them, must
+    still return its sequential value (a concurrent run must not leave a shared object in a state no sequential run
+    produces, even when every concurrent result was right)"""
+    iskey = ex.vk is not None
+    ops = None if iskey else operations(ex.scn.toy)
+    kops = key_operations(ex.scn) if iskey else None
+    for i, n in enumerate(ex.opnames):
+        try:
+            r, e = (kops[n](ex.objs, ex.vk) if iskey else ops[n][0](ex.objs)), None
+        except Exception as x:  # noqa
+            r, e = None, x
+        v = "self" if (e is None and any(r is o for o in ex.objs)) else value_result(r, ex.objs, e)
+        if v not in acc[i]:
+            return "after the threads finished, operation %d (%s) run alone returns %s; sequentially it returns %s" % (
+                i, n, v, sorted(acc[i]))
+    return None
 
 
 def check_results(ex, acc):
@@ -645,11 +820,15 @@ def check_results(ex, acc):
 def explore(scn, opnames, max_runs=5000, preempt_bound=None, want_traces=False):
     """DFS over all interleavings with state hashing.  returns dict(runs, schedules=[(choices, heaps, raw results)],
     violation)"""
-    acc = sequential(scn, opnames)
+    DIRTY.clear()
+    sys.monitoring.restart_events() if _INSTALLED[0] else None
+    acc = sequential(scn, opnames)      # also finds the extra attributes stored on shared objects (DIRTY)
     good = good_values(scn)
     seen = set()
+    finals = set()
     stack = [([], 0)]
-    res = {"runs": 0, "states": 0, "violation": None, "traces": [], "complete": True}
+    res = {"runs": 0, "states": 0, "violation": None, "traces": [], "complete": True, "extra_state": []}
+    restarts = 0
     while stack:
         if res["runs"] >= max_runs:
             res["complete"] = False
@@ -693,6 +872,14 @@ def explore(scn, opnames, max_runs=5000, preempt_bound=None, want_traces=False):
             ex.note_choice(j)
             return j
         ex = Exec(scn, opnames).go(chooser)
+        if ex.restart and restarts < 20:
+            # an extra attribute of a shared object was stored for the first time: explore again with its yield points
+            restarts += 1
+            seen.clear(); finals.clear()
+            stack = [([], 0)]
+            res["traces"] = []
+            res["violation"] = None
+            continue
         if res["violation"]:
             break
         if any(ex.sched.completed):
@@ -703,7 +890,17 @@ def explore(scn, opnames, max_runs=5000, preempt_bound=None, want_traces=False):
             if want_traces and info["fresh"] and ex.sched.all_done():
                 raws = [raw_result(ex.sched.result[i], ex.objs, ex.sched.error[i]) for i in range(len(opnames))]
                 res["traces"].append((list(ex.sched.choices), info["heaps"], raws))
+        if ex.sched.all_done():
+            # last (it runs the operations again on the objects of this run)
+            fkey = (heap_of(ex), ex.extra_state())
+            if fkey not in finals:
+                finals.add(fkey)
+                bad = recheck_sequential(ex, acc)
+                if bad:
+                    res["violation"] = {"schedule": list(ex.sched.choices), "observed": bad}
+                    break
     res["states"] = len(seen)
+    res["extra_state"] = sorted(DIRTY)
     return res
 
 
@@ -718,6 +915,8 @@ def _finish_default(ex, run, info):
 
 def run_one(scn, opnames, schedule):
     """replay a schedule; returns (violation description or None)"""
+    DIRTY.clear()
+    sys.monitoring.restart_events() if _INSTALLED[0] else None
     acc = sequential(scn, opnames)
     good = good_values(scn)
     pos = [0]
@@ -736,9 +935,15 @@ def run_one(scn, opnames, schedule):
         ex.note_choice(j)
         return j
     ex = Exec(scn, opnames).go(chooser)
+    if ex.restart:
+        pos[0] = 0
+        ex = Exec(scn, opnames).go(chooser)
     if out["bad"]:
         return out["bad"]
-    return check_results(ex, acc)
+    bad = check_results(ex, acc)
+    if bad is None and ex.sched.all_done():
+        bad = recheck_sequential(ex, acc)
+    return bad
 
 
 # ------------------------------------------------------------------------------------------------
@@ -817,6 +1022,19 @@ def _all_results(ctx):
     return outs
 
 
+def interleaved(choices):
+    """a schedule is TRIVIAL when every thread's steps are contiguous (the operations simply ran one after another: no
+    preemption, nothing for the property to say); it is non-trivial when some thread is resumed after another one ran"""
+    seen, last = set(), None
+    for j in choices:
+        if j != last:
+            if j in seen:
+                return True
+            seen.add(j)
+            last = j
+    return False
+
+
 def correspond(ctx):
     outs = _all_results(ctx)
     ops = operations(TOYS[0])
@@ -858,9 +1076,13 @@ def correspond(ctx):
         ctx.problem("correspondence", "model driver failed on thr_trace", p.stderr[-1000:])
         return
     ok = 0
+    distinct, nontrivial = set(), set()
     for (arg, choices, impl), m, line in zip(meta, model, lines):
         ctx.cov["evaluations"] += 1
-        ctx.cov["distinct_nontrivial"] += 1
+        # canonical form of a case = the driver line (curve, objects, operations, schedule); see RULE for "trivial"
+        distinct.add(line)
+        if interleaved(choices):
+            nontrivial.add(line)
         ctx.hist("traces.variant", arg[1])
         if impl != m.strip() and not _same_modulo_getstate(impl, m.strip(), arg[2]):
             ctx.problem("correspondence", "model and real PointJacobi differ under schedule: " + line[:300],
@@ -871,6 +1093,9 @@ def correspond(ctx):
         else:
             ok += 1
     ctx.cov["traces_validated_against_impl"] = ok
+    ctx.cov["distinct_cases"] = len(distinct)
+    ctx.cov["distinct_nontrivial"] = len(nontrivial)
+    ctx.cov["explored_digest"] = hashlib.sha1("\n".join(sorted(distinct)).encode()).hexdigest()[:16]
     if lines:
         ctx.sample({"op": lines[-1][:300], "impl": meta[-1][2][-200:], "model": model[len(lines) - 1][-200:]})
 
